@@ -429,8 +429,8 @@ def run_script(ctx, sc, base, FORMS, seed):
             return
         after = {k: listing(dirs[k]) for k in ("in", "out", "tmp", "cwd")}
         perr = p.stderr.decode("utf-8", "replace")
-        if env.get("LC_ALL") == "C":
-            # an ASCII terminal cannot show 'é': the logging stream writes such characters as backslash escapes (\\xe9, \\u041e, \\U0001f642), which
+        if env.get("LC_ALL") == "C" and "json" not in sc["mode"]:
+            # (plain mode only: the JSON report escapes non-ASCII text itself and is parsed as JSON) an ASCII terminal cannot show 'é': the logging stream writes such characters as backslash escapes (\\xe9, \\u041e, \\U0001f642), which
             # carries the diagnostic faithfully; fold the escapes back before looking for the expected lines
             perr = re.sub(r"\\(?:x([0-9a-fA-F]{2})|u([0-9a-fA-F]{4})|U([0-9a-fA-F]{8}))", lambda m_: chr(int(m_.group(1) or m_.group(2) or m_.group(3), 16)), perr)
         calls = []
